@@ -175,7 +175,8 @@ class Ladder(Sub):
 
     def strategy(self, tier):
         return st.tuples(S.system_spec(big=(tier == 'thorough'), methods=('krylov', 'krylov', 'krylov', 'krylov', 'anderson', 'broyden2', 'df-sane')),
-                         st.one_of(st.none(), st.none(), specs.array_desc(4, (-4, -2))), st.booleans()).map(lambda t: dict(t[0], perturb=t[1], sweep=t[2]))
+                         st.one_of(st.none(), st.none(), specs.array_desc(4, (-4, -2))), st.booleans(),
+                         st.one_of(st.just('plain'), st.sampled_from(S.CALL_STYLES + ('resolve-same-object',)))).map(lambda t: dict(t[0], perturb=t[1], sweep=t[2], call=t[3]))
 
     def check(self, spec):
         from . import build
@@ -191,7 +192,8 @@ class Ladder(Sub):
         info = {}
         if spec.get('sweep'):
             out.label('one-System-swept')
-        for scale, pr, res in S.solve_ladder(spec, perturb=perturb, reuse_system=bool(spec.get('sweep'))):
+        out.label('call=' + spec.get('call', 'plain'))
+        for scale, pr, res in S.solve_ladder(spec, perturb=perturb, reuse_system=bool(spec.get('sweep')), call=spec.get('call', 'plain')):
             if res is None or not res.success:
                 out.label('rung-not-converged')
                 break
